@@ -97,6 +97,13 @@ pub proof fn lemma_chain_frame(kw: HeapW, kw2: HeapW, head: nat, s: Seq<nat>, b:
         &&& bucket_of(kkey(kw2, s[i]), n) == b
     } by {
         assert(is_key(kw, s[i]));
+        assert(is_key(kw2, s[i]));
+        assert(kw2.slots[s[i]] == kw.slots[s[i]]);
+    }
+    // the other two conjuncts, spelled out (the bare unfolding was unstable under some z3 seeds)
+    assert(first(s) == head);
+    assert forall|i: int, j: int| 0 <= i < j < s.len() implies s[i] != s[j] by {
+        lemma_chain_member(kw, head, s, b, n, i);
     }
 }
 pub proof fn lemma_chain_push(kw: HeapW, head: nat, s: Seq<nat>, b: int, n: int, ko: nat)
